@@ -7,9 +7,9 @@
 (* the read lock); FALSE is the defect and must violate NoRace.             *)
 (***************************************************************************)
 EXTENDS PanLockset, TLC
-CONSTANTS Str, LockedS2S
+CONSTANTS Str, LockedS2S, SplitPublish
 VARIABLES symTab, strTab, pc, arg, acc
-vars == <<rc, writer, symTab, strTab, pc, arg, acc>>
+vars == <<rc, writer, wrote, symTab, strTab, pc, arg, acc>>
 NoStr == "none"
 
 Init == /\ LInit
@@ -20,7 +20,10 @@ Init == /\ LInit
 Go(p, to)    == pc' = [pc EXCEPT ![p] = to]
 NoAcc(p)     == acc' = [acc EXCEPT ![p] = [tab |-> NoStr, w |-> FALSE]]
 Acc(p, t, w) == acc' = [acc EXCEPT ![p] = [tab |-> t, w |-> w]]
-L0 == UNCHANGED <<rc, writer>>
+L0 == UNCHANGED <<rc, writer, wrote>>
+Wrote(p, tab) == wrote' = [wrote EXCEPT ![p] = @ \cup {tab}] /\ UNCHANGED <<rc, writer>>
+(* the defect variant SplitPublish releases the lock between the two table writes (two critical sections) *)
+RawWUnlock(p) == writer = p /\ writer' = None /\ UNCHANGED <<rc, wrote>>
 
 StartGet(p, s) == pc[p] = "idle" /\ Go(p, "g_rlock") /\ arg' = [arg EXCEPT ![p] = s]
                   /\ L0 /\ UNCHANGED <<symTab, strTab, acc>>
@@ -36,10 +39,13 @@ Step(p) ==
   \/ pc[p] = "g_runlock_miss" /\ RUnlock(p) /\ Go(p, "g_wlock") /\ UNCHANGED <<symTab, strTab, arg, acc>>
   \/ pc[p] = "g_wlock" /\ WLock(p) /\ Go(p, "g_wsym") /\ UNCHANGED <<symTab, strTab, arg, acc>>
   \/ pc[p] = "g_wsym" /\ Acc(p, "sym", TRUE) /\ Go(p, "g_wsym_e") /\ L0 /\ UNCHANGED <<symTab, strTab, arg>>
-  \/ pc[p] = "g_wsym_e" /\ NoAcc(p) /\ symTab' = symTab \cup {arg[p]} /\ Go(p, "g_wstr") /\ L0 /\ UNCHANGED <<strTab, arg>>
+  \/ pc[p] = "g_wsym_e" /\ NoAcc(p) /\ symTab' = symTab \cup {arg[p]} /\ Go(p, IF SplitPublish THEN "g_mid_unlock" ELSE "g_wstr")
+       /\ Wrote(p, "symHashTable") /\ UNCHANGED <<strTab, arg>>
+  \/ pc[p] = "g_mid_unlock" /\ RawWUnlock(p) /\ Go(p, "g_mid_lock") /\ UNCHANGED <<symTab, strTab, arg, acc>>
+  \/ pc[p] = "g_mid_lock" /\ WLock(p) /\ Go(p, "g_wstr") /\ UNCHANGED <<symTab, strTab, arg, acc>>
   \/ pc[p] = "g_wstr" /\ Acc(p, "str", TRUE) /\ Go(p, "g_wstr_e") /\ L0 /\ UNCHANGED <<symTab, strTab, arg>>
-  \/ pc[p] = "g_wstr_e" /\ NoAcc(p) /\ strTab' = strTab \cup {arg[p]} /\ Go(p, "g_wunlock") /\ L0 /\ UNCHANGED <<symTab, arg>>
-  \/ pc[p] = "g_wunlock" /\ WUnlock(p) /\ Go(p, "idle") /\ UNCHANGED <<symTab, strTab, arg, acc>>
+  \/ pc[p] = "g_wstr_e" /\ NoAcc(p) /\ strTab' = strTab \cup {arg[p]} /\ Go(p, "g_wunlock") /\ Wrote(p, "strTable") /\ UNCHANGED <<symTab, arg>>
+  \/ pc[p] = "g_wunlock" /\ (IF SplitPublish THEN RawWUnlock(p) ELSE WUnlock(p)) /\ Go(p, "idle") /\ UNCHANGED <<symTab, strTab, arg, acc>>
   \/ pc[p] = "s_rlock" /\ RLock(p) /\ Go(p, "s_read") /\ UNCHANGED <<symTab, strTab, arg, acc>>
   \/ pc[p] = "s_read" /\ Acc(p, "str", FALSE) /\ Go(p, "s_read_e") /\ L0 /\ UNCHANGED <<symTab, strTab, arg>>
   \/ pc[p] = "s_read_e" /\ NoAcc(p) /\ Go(p, IF LockedS2S THEN "s_runlock" ELSE "idle") /\ L0 /\ UNCHANGED <<symTab, strTab, arg>>
@@ -53,4 +59,6 @@ NoRace == \A p, q \in Proc :
 (* every access in progress is one PanLockset enables: this is what Trace_C20 checks on real traces *)
 LockDiscipline == \A p \in Proc : acc[p].tab # NoStr => (IF acc[p].w THEN CanWrite(p) ELSE CanRead(p))
 Interned == (\A p \in Proc : pc[p] = "idle") => symTab = strTab
+(* whenever nobody holds the write lock the two tables describe the same set of symbols: what a reader relies on *)
+ConsistentWhenFree == writer = None => symTab = strTab
 =============================================================================
